@@ -17,8 +17,9 @@ verus! {
 pub struct LabeledTimeout { pub _p: u8 }
 pub struct Timeouts { pub _p: u8 }
 impl Timeouts {
+    pub uninterp spec fn eeprom_v(&self) -> LabeledTimeout;
     #[verifier::external_body]
-    pub fn eeprom(&self) -> (r: LabeledTimeout) { unimplemented!() }
+    pub fn eeprom(&self) -> (r: LabeledTimeout) ensures r == self.eeprom_v() { unimplemented!() }
     #[verifier::external_body]
     pub async fn loop_tick(&self) { unimplemented!() }
 }
@@ -105,7 +106,7 @@ impl<'a> DeviceEeprom<'a> {
         r is Ok ==> sii_status_read(self.configured_address, r->Ok_0) && !(r->Ok_0).busy,
 @loop 0
     invariant
-        __dl.active,
+        __dl.active, __dl.t@ == self.maindevice.timeouts.eeprom_v(),
     ensures
         __brk0 is Ok ==> sii_status_read(self.configured_address, __brk0->Ok_0) && !(__brk0->Ok_0).busy,
     decreases __dl.left@
